@@ -6,7 +6,7 @@ import numpy as np
 import pykoop
 from .. import core, pipes, structural as st
 
-THEOREMS = ['Pk.C16.C16_none_is_fit_value', 'Pk.C16.C16_retract_state_inv', 'Pk.C16.C16_lift_same_flag', 'Pk.C16.C16_lift_padded',
+THEOREMS = ['Pk.C16.C16_none_is_fit_value', 'Pk.C16.C16_retract_state_inv', 'Pk.C16.C16_retract_input_inv', 'Pk.C16.C16_lift_same_flag', 'Pk.C16.C16_lift_padded',
             'Pk.C16.C16_lift_per_episode', 'Pk.C16.C16_lift_state_block', 'Pk.C16.C16_lift_input_block',
             'Pk.C16.C16_retract_state_block', 'Pk.C16.C16_retract_input_block']
 ALG = ['poly', 'bilinear', 'const', 'delay', 'delay']
